@@ -18,6 +18,15 @@ type anfCtx struct {
 	memo  map[*Node]anfPoly
 	limit int
 	over  bool
+	work  int // monomial operations so far (bounded by 100 x limit)
+}
+
+func (c *anfCtx) spend(n int) bool {
+	c.work += n
+	if c.work > 100*c.limit {
+		c.over = true
+	}
+	return !c.over
 }
 
 func newANF(limit int) *anfCtx {
@@ -78,7 +87,7 @@ func monoMul(a, b string) string {
 
 func (c *anfCtx) mul(a, b anfPoly) anfPoly {
 	r := anfPoly{}
-	if len(a)*len(b) > c.limit {
+	if len(a)*len(b) > c.limit || !c.spend(len(a)*len(b)) {
 		c.over = true
 		return r
 	}
@@ -97,9 +106,19 @@ func (c *anfCtx) mul(a, b anfPoly) anfPoly {
 
 var anfOne = anfPoly{"": {}}
 
+func (c *anfCtx) xor(a, b anfPoly) anfPoly {
+	if !c.spend(len(a) + len(b)) {
+		return anfPoly{}
+	}
+	return anfXor(a, b)
+}
+
 func (c *anfCtx) of(n *Node) (anfPoly, bool) {
 	if r, ok := c.memo[n]; ok {
 		return r, true
+	}
+	if c.over {
+		return nil, false
 	}
 	var r anfPoly
 	switch n.op {
@@ -116,7 +135,7 @@ func (c *anfCtx) of(n *Node) (anfPoly, bool) {
 		if !ok {
 			return nil, false
 		}
-		r = anfXor(x, anfOne)
+		r = c.xor(x, anfOne)
 	default:
 		x, ok1 := c.of(n.a)
 		y, ok2 := c.of(n.b)
@@ -127,15 +146,15 @@ func (c *anfCtx) of(n *Node) (anfPoly, bool) {
 		case opAnd:
 			r = c.mul(x, y)
 		case opOr: // x|y = x^y^xy
-			r = anfXor(anfXor(x, y), c.mul(x, y))
+			r = c.xor(c.xor(x, y), c.mul(x, y))
 		case opXor:
-			r = anfXor(x, y)
+			r = c.xor(x, y)
 		case opMux: // c?x:y = y ^ c(x^y)
 			cc, ok := c.of(n.c)
 			if !ok {
 				return nil, false
 			}
-			r = anfXor(y, c.mul(cc, anfXor(x, y)))
+			r = c.xor(y, c.mul(cc, c.xor(x, y)))
 		}
 	}
 	if c.over || len(r) > c.limit {
